@@ -58,10 +58,10 @@ func RegisterAll() {
 	core.Register(&core.Check{
 		Property: "C07",
 		Level:    "exploration",
-		Rule: "real activeauth.DoActiveAuth inside an installed session against the reference signer: RSA moduli 1024..4096 x trailers SHA-1/224/256/384/512 x chip-chosen M1 (random, zeros, FF, leading zeros), ECDSA on every curve in plain and DER form, caller-supplied challenge in half the runs; then an adversarial chip answer: bit flips, signature over another challenge (relay), by another key, truncated / extended, r or s zero / = n / + n, n-s (malleable, valid), digest over M1 only, unknown or mismatching trailer, random bytes, empty, DER for a plain key and DER with trailing bytes; RSA moduli of 1027/1030/2045/2047 bits for soundness only; offline nonce binding: live reads with a caller-supplied challenge are serialised and verified offline with the same, another, or the original challenge against a rewritten / truncated / extended recorded nonce, with and without a broken signature - every mismatch must be a hard error of Verify; " +
+		Rule: "real activeauth.DoActiveAuth inside an installed session against the reference signer: RSA moduli 1024..4096 x trailers SHA-1/224/256/384/512 x chip-chosen M1 (random, zeros, FF, leading zeros), ECDSA on every curve in plain and DER form, caller-supplied challenge in half the runs; then an adversarial chip answer: bit flips, signature over another challenge (relay), by another key, truncated / extended, r or s zero / = n / + n, n-s (malleable, valid), digest over M1 only, unknown or mismatching trailer, random bytes, empty, DER for a plain key and DER with trailing bytes; RSA moduli of 1027/1030/2045/2047 bits as well; a chip whose first INTERNAL AUTHENTICATE attempts fail with a protected error status; offline nonce binding: live reads with a caller-supplied challenge are serialised and verified offline with the same, another, or the original challenge against a rewritten / truncated / extended recorded nonce, with and without a broken signature - every mismatch must be a hard error of Verify; " +
 			"distinct_nontrivial counts distinct (mode, key, supplied, accepted, reference-valid) tuples",
 		Engines:        []core.Engine{ProtoEngine{"aa"}, StoreVerifyEngine{}},
-		Assumptions:    []string{"acceptance is demanded only for genuine responses with moduli whose bit length is a multiple of 8 (DESIGN.md 6.7 scope note)", "an adversarial response may be accepted iff the reference verifier confirms it is a valid signature by the DG15 key over exactly the challenge sent (signature malleability never alarms)", "ISO/IEC 9796-2 min(s, n-s) signatures are not generated"},
+		Assumptions:    []string{"for RSA moduli whose bit length k is not a multiple of 8 the genuine recoverable message is taken to be the floor(k/8)-octet string starting with 6A (the longest one below the modulus); acceptance is demanded for it", "an adversarial response may be accepted iff the reference verifier confirms it is a valid signature by the DG15 key over exactly the challenge sent (signature malleability never alarms)", "ISO/IEC 9796-2 min(s, n-s) signatures are not generated"},
 		RealComponents: protoReal, SimComponents: protoSim,
 		RequiredProbes: []string{"adversarial_but_valid_accepted"},
 		QuickBudget:    100, ThoroughBudget: 3600,
